@@ -46,8 +46,10 @@ def line_kinds():
 
 
 class OwnLock:
-    def __init__(self, who):
-        self.l = threading.Lock(); self.owner = None; self.who = who
+    """wraps the lock object the Connection created (so a different kind of lock shows its own behaviour) and remembers the holder"""
+
+    def __init__(self, who, inner=None):
+        self.l = inner if inner is not None else threading.Lock(); self.owner = None; self.who = who
 
     def acquire(self, blocking=True, timeout=-1):
         ok = self.l.acquire(blocking, timeout) if blocking else self.l.acquire(False)
@@ -60,7 +62,7 @@ class OwnLock:
         self.l.release()
 
     def locked(self):
-        return self.l.locked()
+        return self.owner is not None
 
 
 def seq_of(data):
@@ -91,22 +93,28 @@ def one_run(totals, spawn, prefix):
 
     class Chan:
         def __init__(self):
-            self.log = []; self.closed = False; self.spawned = set()
+            self.log = []; self.closed = False; self.spawned = set(); self.writing = None
 
         def send(self, data):
             s = seq_of(data)
             if not conn._sendlock.locked() or conn._sendlock.owner != cur["tid"]:
                 viol.append(("write-without-lock", s))
-            if s in spawn and s not in self.spawned:
-                self.spawned.add(s)
-                conn._send(1, spawn[s], ())          # re-entrant send, as a finalizer running during transmission would do
+            if self.writing is not None:
+                viol.append(("packet-written-inside-another-packet", (self.writing, s)))
+            self.writing = s
+            try:
+                if s in spawn and s not in self.spawned:
+                    self.spawned.add(s)
+                    conn._send(1, spawn[s], ())          # re-entrant send, as a finalizer running during transmission would do
+            finally:
+                self.writing = None
             self.log.append(s)
 
         def close(self):
             self.closed = True
     ch = Chan()
     conn = Connection(VoidService(), ch)
-    conn._sendlock = OwnLock(lambda: cur["tid"])
+    conn._sendlock = OwnLock(lambda: cur["tid"], conn._sendlock)
     nthreads = len(totals)
 
     def thunk(tid):
@@ -155,7 +163,10 @@ def oracle(ctx, totals, spawn, sched_list, res):
         return
     if res["errors"]:
         ctx.violation("sender-raised", case, observed=res["errors"], expected="no exception", what="a sender raised")
-    if res["viol"]:
+    if any(v[0] == "packet-written-inside-another-packet" for v in res["viol"]):
+        ctx.violation("packet-not-contiguous", case, observed=[v for v in res["viol"] if v[0].startswith("packet")][:3], expected="one packet at a time",
+                      what="a re-entrant send transmitted its packet in the middle of the packet being written")
+    if any(v[0] == "write-without-lock" for v in res["viol"]):
         ctx.violation("write-outside-lock", case, observed=res["viol"][:3], expected="writes only by the lock holder", what="a packet was written by a thread that does not hold the send lock")
     w = res["wire"]
     if sorted(w) != sorted(exp):
